@@ -226,6 +226,12 @@ func run(sc scenario) (body func(), check func(r *vrt.Result) []finding) {
 				}
 			}
 		}
+		if w.Client.Illegal != "" {
+			add("s2c:frame_inside_header_block", "the client received a %s", w.Client.Illegal)
+		}
+		if w.Server.Illegal != "" {
+			add("c2s:frame_inside_header_block", "the server received a %s", w.Server.Illegal)
+		}
 		if w.Client.RdErr != nil || w.Server.RdErr != nil {
 			add("endpoint_read_error", "client read err=%v server read err=%v", w.Client.RdErr, w.Server.RdErr)
 		}
@@ -532,7 +538,7 @@ func scenarios(tier string) []scenario {
 	}})
 	// header blocks larger than one frame: the relay has to cut the re-encoded block into HEADERS + CONTINUATION
 	// frames of at most the receiver's maximum frame size (default, and raised to 20000)
-	huge := func(n int) [][2]string { return [][2]string{{"x-huge", strings.Repeat("h", n)}} }
+	huge := func(n int) [][2]string { return [][2]string{{"x-huge", strings.Repeat("~", n)}} } // "~" has a 13-bit Huffman code: the encoder sends it raw, n bytes on the wire
 	for _, n := range []int{16300, 16384, 40000} {
 		for _, mfs := range []uint32{0, 20000} {
 			st := settingsStep()
@@ -550,6 +556,51 @@ func scenarios(tier string) []scenario {
 					{T: "headers", Stream: 1, Fields: resFields, EndStream: true}}},
 			}})
 		}
+	}
+	// a header block the relay has to cut into HEADERS + CONTINUATION is written while the other direction makes the
+	// relay write to the same endpoint (WINDOW_UPDATE acknowledging uploaded DATA, a forwarded PING): nothing may
+	// come between the frames of one block. Schedules explored.
+	for _, n := range []int{17000} {
+		out = append(out, scenario{Fam: "hpack", Name: fmt.Sprintf("response block with a %d-byte field while the client uploads DATA and the server pings", n), Class: "huge_block_duplex", Bound: 1, Steps: []step{settingsStep(),
+			{Client: []hw.Spec{{T: "headers", Stream: 1, Fields: reqFields}}},
+			{Client: []hw.Spec{{T: "data", Stream: 1, Len: 10}, {T: "data", Stream: 1, Len: 7, EndStream: true}},
+				Server: []hw.Spec{{T: "headers", Stream: 1, Fields: append(append([][2]string{}, resFields...), huge(n)...), Frags: 4}, {T: "ping", Ping: "pingpong"}, {T: "data", Stream: 1, Len: 3, EndStream: true}}},
+		}})
+		out = append(out, scenario{Fam: "hpack", Name: fmt.Sprintf("request block with a %d-byte field while the server sends DATA", n), Class: "huge_block_duplex", Bound: 1, Steps: []step{settingsStep(),
+			{Client: []hw.Spec{{T: "headers", Stream: 1, Fields: reqFields, EndStream: true}}},
+			{Server: []hw.Spec{{T: "headers", Stream: 1, Fields: resFields}}},
+			{Client: []hw.Spec{{T: "headers", Stream: 3, Fields: append(append([][2]string{}, reqFields...), huge(n)...), Frags: 4, EndStream: true}, {T: "ping", Ping: "abcdefgh"}},
+				Server: []hw.Spec{{T: "data", Stream: 1, Len: 10}, {T: "data", Stream: 1, Len: 7, EndStream: true}}},
+		}})
+	}
+	// the same with a receiver that has stopped reading: the relay's writer is stuck in the middle of the block, the
+	// other direction's acknowledgement queues up behind the write lock, then the receiver resumes
+	out = append(out, scenario{Fam: "hpack", Name: "stalled client: 40000-byte response block stuck half written, the client's upload is acknowledged meanwhile, then the client resumes", Class: "huge_block_duplex", Stall: "client", Bound: 1, Steps: []step{
+		{Client: []hw.Spec{{T: "settings"}, {T: "headers", Stream: 1, Fields: reqFields}}, Server: []hw.Spec{{T: "settings"}}},
+		{Server: []hw.Spec{{T: "headers", Stream: 1, Fields: append(append([][2]string{}, resFields...), huge(40000)...), Frags: 4}}},
+		{Client: []hw.Spec{{T: "data", Stream: 1, Len: 10, EndStream: true}}, Server: []hw.Spec{{T: "ping", Ping: "pingpong"}}},
+		{Resume: true},
+		{Server: []hw.Spec{{T: "data", Stream: 1, Len: 3, EndStream: true}}},
+	}})
+	out = append(out, scenario{Fam: "hpack", Name: "stalled server: 40000-byte request block stuck half written, the server's DATA is acknowledged meanwhile, then the server resumes", Class: "huge_block_duplex", Stall: "server", Bound: 1, Steps: []step{
+		{Client: []hw.Spec{{T: "settings"}, {T: "headers", Stream: 1, Fields: reqFields, EndStream: true}}, Server: []hw.Spec{{T: "settings"}}},
+		{Client: []hw.Spec{{T: "headers", Stream: 3, Fields: append(append([][2]string{}, reqFields...), huge(40000)...), Frags: 4, EndStream: true}}},
+		{Server: []hw.Spec{{T: "headers", Stream: 1, Fields: resFields}, {T: "data", Stream: 1, Len: 10, EndStream: true}}, Client: []hw.Spec{{T: "ping", Ping: "abcdefgh"}}},
+		{Resume: true},
+	}})
+	// PUSH_PROMISE keeps its place among the frames of the associated stream when earlier DATA of that stream is
+	// held back by the client's window
+	for _, iw := range []uint32{0, 10} {
+		out = append(out, scenario{Fam: "window", Name: fmt.Sprintf("client initial window %d; response DATA blocked, then PUSH_PROMISE on the same stream, more DATA, then credit", iw), Class: "push_behind_blocked_data",
+			Steps: []step{
+				{Client: []hw.Spec{{T: "settings", Settings: [][2]uint32{{4, iw}}}}, Server: []hw.Spec{{T: "settings"}}},
+				{Client: []hw.Spec{{T: "headers", Stream: 1, Fields: reqFields, EndStream: true}}},
+				{Server: []hw.Spec{{T: "headers", Stream: 1, Fields: resFields}, {T: "data", Stream: 1, Len: 10}, {T: "data", Stream: 1, Len: 10},
+					{T: "push", Stream: 1, Promise: 2, Fields: reqFields, Frags: 1}, {T: "data", Stream: 1, Len: 4, EndStream: true}}},
+				{Server: []hw.Spec{{T: "headers", Stream: 2, Fields: resFields, EndStream: true}}},
+				{Client: []hw.Spec{{T: "wu", Stream: 1, Incr: 5}}},
+				{Client: []hw.Spec{{T: "wu", Stream: 1, Incr: 100}}},
+			}})
 	}
 	// the receiver shrinks / disables its header table before repeated blocks arrive (the relay's encoder toward it
 	// must follow), in both directions
@@ -657,12 +708,17 @@ func main() {
 			if si%n != i {
 				continue
 			}
+			if f := os.Getenv("C08_ONLY"); f != "" && !strings.Contains(sc.Name, f) {
+				continue // development aid: run only the scenarios whose name contains the value
+			}
 			// deviation bound per family: pure input families run the default schedule in quick; families with
 			// concurrency or flow-control blocking get schedule exploration in both tiers
 			b := sc.Bound
 			switch sc.Fam {
 			case "window", "interleave", "hpack":
-				b = 1
+				if b < 1 {
+					b = 1
+				}
 			}
 			if tier == "thorough" {
 				b++
@@ -670,7 +726,21 @@ func main() {
 					b++
 				}
 			}
+			if v := os.Getenv("C08_BOUND"); v != "" {
+				fmt.Sscanf(v, "%d", &b)
+			}
 			body, check := run(sc)
+			if os.Getenv("C08_TRACE") != "" {
+				r := vrt.Run(vrt.Config{Trace: true, MaxPoints: 400000}, nil, body)
+				// development aid: C08_TRACE=<file> writes the trace of the default schedule of each selected scenario
+				tf, _ := os.OpenFile(os.Getenv("C08_TRACE"), os.O_APPEND|os.O_CREATE|os.O_WRONLY, 0o644)
+				fmt.Fprintln(tf, "SCENARIO", sc.Name)
+				for _, l := range r.Trace {
+					fmt.Fprintln(tf, l)
+				}
+				fmt.Fprintln(tf, "outcome", r.Outcome, check(r))
+				tf.Close()
+			}
 			seen := map[string]bool{}
 			st := vrt.Explore(vrt.ExploreConfig{Bound: b, Deadline: time.Now().Add(per), Config: vrt.Config{MaxPoints: 400000}}, body, func(prefix []int, r *vrt.Result) bool {
 				for _, f := range check(r) {
